@@ -193,6 +193,15 @@ STRUCTURED.append(('a parameter store section whose keys are named like [Variabl
                    '[Variables]\nrho : 0.25\ncutoff : 6.0\nrho_max : ${Tabulation:cutoff}\n\n[Buck]\nA : 1388.773\nrho : 0.3623\nC : 175.0\nparams : ${A} ${rho} ${C}\n\n' + _P +
                    '[Pair]\nO-O : as.buck ${Buck:params}\nU-O : as.buck 800.0 ${rho} 0.0\nU-U : >0 as.lj 0.2 ${rho_max} >=${cutoff} as.zero\n',
                    _P + '[Pair]\nO-O : as.buck 1388.773 0.3623 175.0\nU-O : as.buck 800.0 0.25 0.0\nU-U : >0 as.lj 0.2 2.0 >=6.0 as.zero\n', []))
+STRUCTURED.append(('a cross-section reference whose target uses a bare name of ITS section, which in turn uses another bare name of that section',
+                   '[Variables]\nscale : 1.0e3\nA : 11.0\n\n[Buck]\nscale : 2.0e3\nA : ${scale}\nparams : ${A} 0.3 32.0\n\n' + _P + '[Pair]\nO-O : as.buck ${Buck:params}\nU-O : as.buck ${scale} 0.3 ${A}\n',
+                   _P + '[Pair]\nO-O : as.buck 2.0e3 0.3 32.0\nU-O : as.buck 1.0e3 0.3 11.0\n', []))
+STRUCTURED.append(('the same with names that exist only in the referenced section',
+                   '[Buck]\nbase : 2.0e3\nA : ${base}\nparams : ${A} 0.3 32.0\n\n' + _P + '[Pair]\nO-O : as.buck ${Buck:params}\nU-O : as.lj 0.2 2.5\n',
+                   _P + '[Pair]\nO-O : as.buck 2.0e3 0.3 32.0\nU-O : as.lj 0.2 2.5\n', []))
+STRUCTURED.append(('placeholders at line ends of a value continued over several lines (one parameter per line)',
+                   '[Variables]\nc0 : 10\nc1 : -4\nc2 : 1\nA : 1000.0\nrho : 0.3\n\n' + _P + '[Pair]\nO-O : as.polynomial ${c0}\n      ${c1}\n      ${c2}\nU-O : as.buck ${A}\n      ${rho}\n      32.0\n',
+                   _P + '[Pair]\nO-O : as.polynomial 10 -4 1\nU-O : as.buck 1000.0 0.3 32.0\n', []))
 _E = '[Tabulation]\ntarget : setfl\nnr : 4\ndr : 0.5\nnrho : 4\ndrho : %s\n\n[EAM-Embed]\nAl : >=0 as.polynomial 0.1 -1.0 0.01\nCu : %s\n\n[EAM-Density]\nAl : >=0 as.exp_spline 1.1 -1.1 0.03 0 0 0 0.1\nCu : >=0 as.exp_spline 0.9 -1.0 0.02 0 0 0 0.05\n\n[Pair]\nCu-Al : >=0 as.morse 1.3 3.0 0.35\n'
 _S = '[Species]\nAl.lattice_type%sbcc\nAl.atomic_mass%s30.0\nCu.lattice_constant%s3.61\n\n'
 STRUCTURED.append(('every value of [Tabulation] / [Species] / [EAM-*] starts on the line after its key (no placeholders at all)',
